@@ -1058,6 +1058,12 @@ rrul_fill_yly(echs_instant_t *restrict tgt, size_t nti, rrulsp_t rr)
 
 	y -= echs_shift_dvalue(rr->shift) > 0 ||
 		echs_shift_bday_p(rr->shift) && !echs_shift_neg_p(rr->shift);
+	if (rr->inter == 1U && bi63_has_bits_p(rr->wk)) {
+		/* the last week of a year may reach into the next one, a proto
+		 * from there (the one kept back for the refill) belongs to
+		 * the year before */
+		y--;
+	}
 	with (int tmp) {
 		/* easter offsets beyond new year belong to the year before */
 		for (bitint_iter_t ei = 0UL;
